@@ -27,7 +27,7 @@ type ProbeRes struct {
 	//+field:name
 	Response enc.Name `tlv:"0x07"`
 	//+field:natural:optional
-	MaxSuffixLength *uint64
+	MaxSuffixLength *uint64 `tlv:"0x8F"`
 }
 
 type ProbeResContent struct {
